@@ -61,6 +61,7 @@ def module_source(modname, repo):
 
 def find_function(qual, repo):
     """qual like soupsieve.css_match.Inputs.validate_day or soupsieve.css_parser.css_unescape.replace"""
+    qual = qual.split('@')[0]            # contract variants (same function, different preconditions) share the source
     parts = qual.split('.')
     # longest module prefix that exists
     for i in range(len(parts), 0, -1):
